@@ -47,6 +47,7 @@ func main() {
 	replay := flag.String("replay", "", "replay file written by an earlier run")
 	mutant := flag.String("mutant", "", "internal: apply this mutant (json file) as an overlay and print fired rule keys")
 	list := flag.Bool("list", false, "list rules and properties")
+	recordAnchors := flag.String("record-anchors", "", "development: run the property's rules and write the signatures of all functions looked up by name to this file")
 	rulesJSON := flag.Bool("rules", false, "print the rule catalogue as JSON")
 	goarch := flag.String("goarch", "", "GOARCH to load with (default: host)")
 	noSelfval := flag.Bool("no-selfval", false, "thorough tier without the mutant corpus")
@@ -126,6 +127,10 @@ func main() {
 		os.Exit(runMutant(*repo, *mutant))
 	}
 
+	if *recordAnchors != "" {
+		anchorRecord = map[string]string{}
+		defer func() {}()
+	}
 	names := propRules[*property]
 	if len(names) == 0 {
 		fmt.Printf("BROKEN: unknown property %q\n", *property)
@@ -134,7 +139,12 @@ func main() {
 	if *only != "" {
 		names = strings.Split(*only, ",")
 	}
-	os.Exit(runProperty(*repo, *verif, *property, *tier, names, *goarch, seed, *noSelfval))
+	code := runProperty(*repo, *verif, *property, *tier, names, *goarch, seed, *noSelfval)
+	if *recordAnchors != "" {
+		b, _ := json.MarshalIndent(anchorRecord, "", " ")
+		os.WriteFile(*recordAnchors, b, 0o644)
+	}
+	os.Exit(code)
 }
 
 func replayDir(verif string) string {
